@@ -3,6 +3,7 @@
 mod util;
 mod ops_basic;
 mod ops_cache;
+mod ops_checker;
 
 use std::io::{BufRead, Write};
 
@@ -36,6 +37,9 @@ fn serve() {
         let fields: Vec<String> = it.map(util::unhex).collect();
         let res = std::panic::catch_unwind(std::panic::AssertUnwindSafe(|| {
             if let Some(r) = ops_cache::dispatch(&mut cst, &op, &fields) {
+                return r;
+            }
+            if let Some(r) = ops_checker::dispatch(&op, &fields) {
                 return r;
             }
             ops_basic::dispatch(&mut st, &op, &fields)
